@@ -212,6 +212,7 @@ FS_TREES = {
     "big3": {"L1": (b"1", BIG), "L2": (b"2", BIG), "L3": (b"3", BIG), "s/x": (b"x", 2)},
     "big2+dup": {"d/L1": (b"1", BIG), "d/L2": (b"1", BIG), "d/y": (b"y", 1), "z": (b"y", 1)},
     "siblings": {"d/x": (b"x", 1), "d2/y": (b"y", 2), "d/e.bak/z": (b"z", 3), "d/e/w": (b"w", 4)},
+    "flat4": {"a": (b"a", 1), "b": (b"b", 2), "c": (b"c", 3), "d": (b"d", 4)},
 }
 
 _PERM = {"order": None, "used": 0, "sizes": []}
@@ -275,6 +276,14 @@ def build_once(w, tname, order, jobs, perm, statemode, threshold_direct):
         if statemode == "touched":
             runs = 2
         obj = None
+        if statemode.startswith("partial"):
+            # the state knows every file but one (a file added since the last build): first / last by name
+            from dvc_data.hashfile.hash import hash_file
+
+            skip = sorted(tree)[0 if statemode == "partial-first" else -1]
+            for rel in tree:
+                if rel != skip:
+                    hash_file(os.path.join(ws, *rel.split("/")), LFS, "md5", state=state)
         for r in range(runs):
             if r == 1 and statemode == "touched":
                 first = sorted(tree)[0]
@@ -329,7 +338,7 @@ def run_fs(case):
     order = case["order"]
     for jobs in (1, 2, 4):
         for perm in perms:
-            for sm in ("none", "cold", "warm", "touched"):
+            for sm in ("none", "cold", "warm", "touched", "partial-first", "partial-last"):
                 with World() as w:
                     viol, info = build_once(w, tname, order, jobs, perm, sm, threshold_direct=(sm in ("none", "warm")))
                 res["n"] += 1
@@ -343,6 +352,8 @@ def run_fs(case):
                         res["vac"]["pool_perms_nonidentity"] += 1
                 if sm in ("warm", "touched"):
                     res["vac"]["state_warm_runs"] += 1
+                if sm.startswith("partial"):
+                    res["vac"]["state_partial_runs"] = res["vac"].get("state_partial_runs", 0) + 1
                 res["outcomes"].add(repr((bool(viol), info["pool_used"] > 0)))
                 for sig, detail in viol:
                     if sig not in sigs:
@@ -352,7 +363,7 @@ def run_fs(case):
     res["outcomes"] = sorted(res["outcomes"])
     res["nontrivial"] = sorted(res["nontrivial"])
     res["sample"] = {"tree": tname, "creation_order": order, "jobs": [1, 2, 4], "pool completion orders": len(perms),
-                     "state": ["none", "cold", "warm", "touched"]}
+                     "state": ["none", "cold", "warm", "touched", "partial-first", "partial-last"]}
     return res
 
 
@@ -402,7 +413,7 @@ def run(ctx):
         f"pure: every entry set of <= {maxk} paths over {U} x {{h1,h2}} x every insertion permutation x "
         "metadata decorations (reference encoder, injectivity, round trip, every prefix); file system: 3 "
         "trees x every (quick: 6 rotations/reversals of) creation order x jobs {1,2,4} x every completion "
-        "permutation of the hashing pool x state {none,cold,warm,touched}, _get_hashes with a 1-byte "
+        "permutation of the hashing pool x state {none,cold,warm,touched,all-but-first-known,all-but-last-known}, _get_hashes with a 1-byte "
         "threshold; non-trivial = >= 2 entries / every fs run"
     )
     ctx.bound = {"paths": U, "max_entries": maxk, "fs_trees": {k: {r: s for r, (_f, s) in v.items()} for k, v in FS_TREES.items()}}
@@ -412,7 +423,7 @@ def run(ctx):
         "key parts never contain '/' (file-system names)",
     ]
     ctx.require("perms_gt1", "nested_prefixes", "pool_runs", "pool_perms_nonidentity", "state_warm_runs",
-                "real_pool_runs")
+                "real_pool_runs", "state_partial_runs")
     nsl = 16 if ctx.tier != "thorough" else 192
     cs = [{"part": "pure", "maxk": maxk, "slice": [i, nsl]} for i in range(nsl)]
     for tname, tree in FS_TREES.items():
